@@ -171,3 +171,16 @@ mut("guard_gives_lock_back", "src/mutex/guard.rs", "impl<'a, T: ?Sized, R: RawMu
 mut("lockguard_into_inner", "src/collection/guard.rs", "impl<Guard> AsRef<Guard> for LockGuard<Guard> {",
     "impl<Guard> LockGuard<Guard> {\n\t/// Gives up the key and keeps the locks.\n\tpub fn into_holds(self) -> Guard {\n\t\tself.guard\n\t}\n}\n\nimpl<Guard> AsRef<Guard> for LockGuard<Guard> {",
     [("C03", "R6"), ("C14", "R6")])
+
+mut("array_guard_skips_last", "src/lockable.rs", "\t\tfor i in 0..N {\n\t\t\tguards[i].write(self[i].guard());", "\t\tfor i in 0..N - 1 {\n\t\t\tguards[i].write(self[i].guard());",
+    [("C02", "P1")])
+mut("rwlock_try_write_swapped_branches", "src/rwlock/rwlock.rs",
+    "\t\t\tif self.raw_try_write() {\n\t\t\t\t// safety: the lock is locked first\n\t\t\t\tOk(RwLockWriteGuard::new(self, key))\n\t\t\t} else {\n\t\t\t\tErr(key)\n\t\t\t}",
+    "\t\t\tif !self.raw_try_write() {\n\t\t\t\t// safety: the lock is locked first\n\t\t\t\tOk(RwLockWriteGuard::new(self, key))\n\t\t\t} else {\n\t\t\t\tErr(key)\n\t\t\t}",
+    [("C02", "T1"), ("C03", "R4")])
+mut("flag_starts_poisoned", "src/poisonable/flag.rs", "\tpub const fn new() -> Self {\n\t\tSelf(AtomicBool::new(false))", "\tpub const fn new() -> Self {\n\t\tSelf(AtomicBool::new(true))",
+    [("C10", "F4")])
+mut("rwlock_scoped_read_exclusive", "src/rwlock/rwlock.rs",
+    "\t\t\tself.raw_read();\n\n\t\t\t// safety: the data has been locked\n\t\t\tlet r = handle_unwind(\n\t\t\t\t|| f(self.data.get().as_ref().unwrap_unchecked()),\n\t\t\t\t|| self.raw_unlock_read(),\n\t\t\t);\n\n\t\t\t// ensures the key is held long enough\n\t\t\tdrop(key);\n\n\t\t\t// safety: the mutex is still locked\n\t\t\tself.raw_unlock_read();",
+    "\t\t\tself.raw_write();\n\n\t\t\t// safety: the data has been locked\n\t\t\tlet r = handle_unwind(\n\t\t\t\t|| f(self.data.get().as_ref().unwrap_unchecked()),\n\t\t\t\t|| self.raw_unlock_write(),\n\t\t\t);\n\n\t\t\t// ensures the key is held long enough\n\t\t\tdrop(key);\n\n\t\t\t// safety: the mutex is still locked\n\t\t\tself.raw_unlock_write();",
+    [("C13", "X3"), ("C02", "X3")])
